@@ -68,6 +68,12 @@ func parseHandlerText(name, s string) int {
 
 // register goes through the public Server API. variant picks between equivalent entry points.
 func (e *env) register(kind, name string, ver int, variant int) {
+	e.prepare(kind, name, ver, variant)()
+}
+
+// prepare builds the entry and its handler and returns the bare API call (so that racing callers can be
+// released with everything else already done).
+func (e *env) prepare(kind, name string, ver int, variant int) func() {
 	s := e.f.S
 	switch kind {
 	case "tool":
@@ -75,47 +81,50 @@ func (e *env) register(kind, name string, ver int, variant int) {
 			return mcp.NewTextResult(handlerText(name, ver)), nil
 		}
 		if name == "" && variant%2 == 1 {
-			s.RegisterTool(nil, h)
-			return
+			return func() { s.RegisterTool(nil, h) }
 		}
-		s.RegisterTool(mcp.NewTool(name, mcp.WithDescription(desc(ver))), h)
+		t := mcp.NewTool(name, mcp.WithDescription(desc(ver)))
+		return func() { s.RegisterTool(t, h) }
 	case "prompt":
 		h := func(ctx context.Context, req *mcp.GetPromptRequest) (*mcp.GetPromptResult, error) {
 			return &mcp.GetPromptResult{Description: handlerText(name, ver), Messages: []mcp.PromptMessage{}}, nil
 		}
 		if name == "" && variant%2 == 1 {
-			s.RegisterPrompt(nil, h)
-			return
+			return func() { s.RegisterPrompt(nil, h) }
 		}
-		s.RegisterPrompt(&mcp.Prompt{Name: name, Description: desc(ver)}, h)
+		p := &mcp.Prompt{Name: name, Description: desc(ver)}
+		return func() { s.RegisterPrompt(p, h) }
 	case "resource":
 		if name == "" && variant%2 == 1 {
-			s.RegisterResource(nil, nil)
-			return
+			return func() { s.RegisterResource(nil, nil) }
 		}
 		r := &mcp.Resource{URI: name, Name: "res", Description: desc(ver)}
 		if variant%3 == 2 {
-			s.RegisterResources(r, func(ctx context.Context, req *mcp.ReadResourceRequest) ([]mcp.ResourceContents, error) {
+			hs := func(ctx context.Context, req *mcp.ReadResourceRequest) ([]mcp.ResourceContents, error) {
 				return []mcp.ResourceContents{mcp.TextResourceContents{URI: name, Text: handlerText(name, ver)}}, nil
-			})
-			return
+			}
+			return func() { s.RegisterResources(r, hs) }
 		}
-		s.RegisterResource(r, func(ctx context.Context, req *mcp.ReadResourceRequest) (mcp.ResourceContents, error) {
+		h := func(ctx context.Context, req *mcp.ReadResourceRequest) (mcp.ResourceContents, error) {
 			return mcp.TextResourceContents{URI: name, Text: handlerText(name, ver)}, nil
-		})
+		}
+		return func() { s.RegisterResource(r, h) }
 	case "template":
 		t := mcp.NewResourceTemplate("tpl://x/{id}", name, mcp.WithTemplateDescription(desc(ver)))
-		s.RegisterResourceTemplate(t, func(ctx context.Context, req *mcp.ReadResourceRequest) ([]mcp.ResourceContents, error) {
+		h := func(ctx context.Context, req *mcp.ReadResourceRequest) ([]mcp.ResourceContents, error) {
 			return nil, nil
-		})
+		}
+		return func() { s.RegisterResourceTemplate(t, h) }
 	case "notif":
-		s.RegisterNotificationHandler(name, func(ctx context.Context, n *mcp.JSONRPCNotification) error {
+		h := func(ctx context.Context, n *mcp.JSONRPCNotification) error {
 			if tok, ok := n.Params.Meta["tok"].(float64); ok {
 				e.notifSeen.Store(int64(tok), ver)
 			}
 			return nil
-		})
+		}
+		return func() { s.RegisterNotificationHandler(name, h) }
 	}
+	return func() {}
 }
 
 type rpcResp struct {
